@@ -50,17 +50,10 @@ func (f *Cond) Call(s *slip.Scope, args slip.List, depth int) (result slip.Objec
 			slip.TypePanic(s, depth, "clause", a, "list")
 		}
 		// A clause without forms returns the value of its test.
-		if result = slip.EvalArg(s, clause, 0, d2); result == nil {
+		// The first value of the test decides and is what a clause without
+		// forms returns.
+		if result = firstValue(slip.EvalArg(s, clause, 0, d2)); result == nil {
 			continue
-		}
-		if len(clause) == 1 {
-			// Only the first value of the test is returned.
-			if vs, ok2 := result.(slip.Values); ok2 {
-				result = vs.First()
-				if list, ok3 := result.(slip.List); ok3 && len(list) == 0 {
-					result = nil
-				}
-			}
 		}
 		for i := 1; i < len(clause); i++ {
 			result = slip.EvalArg(s, clause, i, d2)
